@@ -144,6 +144,35 @@ def run(M, rep, tier, only=None):
             if fdec and nret is not None and nret != (1 if fdec[0] else 0):
                 bad = (p, "the returned list does not consist of the nodes that passed the filter")
                 break
+        # second look with two unrolled iterations: no dequeued node may be skipped (it must be filtered, and its
+        # children considered, whatever was seen before), and results keep the dequeue order
+        if bad is None:
+            f2 = Ctx(M, coarse=False, unroll=2)
+            f2.cfg.compose = False
+            f2.cfg.opaque = {}
+            try:
+                paths2 = explore(f2.cfg, f, None, None, 20000)
+            except Budget:
+                paths2 = []
+            for p in paths2:
+                if not p.normal:
+                    continue
+                pops = [e for e in p.events if e.kind == "local" and e.op == "list.pop"]
+                calls = [e for e in p.events if e.kind == "callv"]
+                if len(pops) >= 2 and len(calls) != len(pops):
+                    bad = (p, "%d node(s) are dequeued but the filter is applied %d time(s): a node (and the subtree below it) can be "
+                           "skipped depending on what was visited before" % (len(pops), len(calls)))
+                    break
+                # result order = dequeue order: an append to the result may only concern the node dequeued last
+                for e in p.events:
+                    if e.kind == "local" and e.op in ("list.append", "list.extend") and pops and e.idx > pops[0].idx and e.args:
+                        a = e.args[0].t
+                        if e.op == "list.extend" and any(x and x[0] == "comp" for x in subterms(a)) and \
+                                any("filtr" in show(x) for x in subterms(a) if x and x[0] == "call"):
+                            bad = (p, "children are put into the result directly (before the siblings of their parent): the result is not "
+                                   "in breadth-first order")
+                if bad:
+                    break
         # children of a file/block start at level 1
         lv1 = False
         for p in paths:
